@@ -1,0 +1,108 @@
+//! Verification hooks.
+//!
+//! This module only exists when the crate is built with `--cfg flussab_verif`. It provides a
+//! thread-local, allocation-free event recorder that external conformance harnesses can install to
+//! observe the internal steps of [`DeferredReader`][crate::DeferredReader],
+//! [`LineReader`][crate::text::LineReader] and the scanners built on them. Without an installed
+//! recorder emitting an event is a thread-local load and a branch.
+#![allow(missing_docs)]
+use std::cell::RefCell;
+
+/// Internal fields of a [`DeferredReader`][crate::DeferredReader].
+#[derive(Clone, Copy, Debug, PartialEq, Eq)]
+pub struct ReaderState {
+    pub pos_in_buf: usize,
+    pub valid_len: usize,
+    pub pos_of_buf: usize,
+    pub mark_in_buf: usize,
+    pub buf_len: usize,
+    pub buf_cap: usize,
+    pub complete: bool,
+    pub io_error: bool,
+    pub chunk_size: usize,
+}
+
+/// Internal fields of a [`DeferredWriter`][crate::DeferredWriter].
+#[derive(Clone, Copy, Debug, PartialEq, Eq)]
+pub struct WriterState {
+    pub len: usize,
+    pub cap: usize,
+    pub io_error: bool,
+    pub panicked: bool,
+}
+
+/// Outcome of the single source read performed by `request_more`.
+#[derive(Clone, Copy, Debug, PartialEq, Eq)]
+pub enum ReadOutcome {
+    Bytes(usize),
+    Eof,
+    Error,
+}
+
+/// A recorded event.
+#[derive(Clone, Copy, Debug)]
+pub enum Event<'a> {
+    /// `DeferredReader::request_more` finished its read loop.
+    Rd {
+        offered: usize,
+        outcome: ReadOutcome,
+        bytes: &'a [u8],
+        realign: bool,
+        shrink: bool,
+        state: ReaderState,
+    },
+    /// `DeferredReader::advance` (also via `advance_with_buf`), after the cursor moved.
+    Adv { n: usize, position: usize },
+    /// `LineReader::line_at_offset`, after the bookkeeping changed.
+    Ln { line: usize, line_start: usize },
+    /// `LineReader::give_up_at_cold`. `io` tells whether a parked IO error is reported instead of a
+    /// syntax error; `column` is computed with wrapping arithmetic.
+    Gu {
+        position: usize,
+        io: bool,
+        line: usize,
+        line_start: usize,
+        column: usize,
+    },
+    /// Entry of the fast (multi-byte) path of a scanner.
+    Fp {
+        func: &'static str,
+        offset: usize,
+        buf_len: usize,
+    },
+    /// One iteration of `Renumber::transfer`.
+    Tr {
+        state: &'static str,
+        lit: usize,
+        depth: usize,
+        last_code: usize,
+    },
+}
+
+type Hook = Box<dyn FnMut(&Event<'_>)>;
+
+thread_local! {
+    static HOOK: RefCell<Option<Hook>> = const { RefCell::new(None) };
+}
+
+/// Installs a recorder for the current thread, returning the previous one.
+pub fn install(hook: Hook) -> Option<Hook> {
+    HOOK.with(|h| h.borrow_mut().replace(hook))
+}
+
+/// Removes the current thread's recorder.
+pub fn uninstall() -> Option<Hook> {
+    HOOK.with(|h| h.borrow_mut().take())
+}
+
+/// Hands `event` to the current thread's recorder, if any.
+#[inline]
+pub fn emit(event: Event<'_>) {
+    HOOK.with(|h| {
+        if let Ok(mut guard) = h.try_borrow_mut() {
+            if let Some(hook) = guard.as_mut() {
+                hook(&event);
+            }
+        }
+    });
+}
